@@ -19,6 +19,7 @@
 #include <csignal>
 #include <cstdlib>
 #include <numeric>
+#include <pthread.h>
 #include <type_traits>
 #include <unistd.h>
 #include <utility>
@@ -294,21 +295,24 @@ struct Ev {
     }
 };
 
-// ---- trap guard: a division that raises SIGFPE is recorded, not fatal ------------------------------
+// ---- trap guard: a call that raises SIGFPE (division) or overflows the stack (runaway recursion; the
+// work runs on a thread with a small stack, the handlers on an alternate stack) is recorded as
+// "trap", not fatal.  Build with -fno-optimize-sibling-calls so that runaway recursion cannot turn
+// into an endless loop.
 sigjmp_buf g_jb;
 volatile sig_atomic_t g_armed = 0;
+long g_traps                  = 0;
 
-void on_fpe(int)
-{
-    if (g_armed) { siglongjmp(g_jb, 1); }
-    flush_out();
-    _exit(3);
-}
 void on_fatal(int sig)
 {
     flush_out();
     std::fprintf(stderr, "FATAL signal %d after %ld events\n", sig, g_events);
     _exit(3);
+}
+void on_trap(int sig)
+{
+    if (g_armed) { siglongjmp(g_jb, sig); }
+    on_fatal(sig);
 }
 template <class F> bool guarded(F&& f)
 {
@@ -319,6 +323,7 @@ template <class F> bool guarded(F&& f)
         return true;
     }
     g_armed = 0;
+    ++g_traps;
     return false;
 }
 
@@ -821,16 +826,29 @@ int wide(bool thorough, std::string const& which, uint64_t seed)
     return 0;
 }
 
-} // namespace
+struct Args {
+    int argc;
+    char** argv;
+    int rc;
+};
 
-int main(int argc, char** argv)
+void* work(void* p)
 {
+    static char altstack[1 << 16];
+    stack_t ss {};
+    ss.ss_sp   = altstack;
+    ss.ss_size = sizeof(altstack);
+    sigaltstack(&ss, nullptr);
     struct sigaction sa {};
-    sa.sa_handler = on_fpe;
-    sa.sa_flags   = SA_NODEFER;
+    sa.sa_handler = on_trap;
+    sa.sa_flags   = SA_NODEFER | SA_ONSTACK;
     sigaction(SIGFPE, &sa, nullptr);
-    for (int s : {SIGSEGV, SIGABRT, SIGILL, SIGBUS}) { std::signal(s, on_fatal); }
+    sigaction(SIGSEGV, &sa, nullptr);
+    for (int s : {SIGABRT, SIGILL, SIGBUS}) { std::signal(s, on_fatal); }
 
+    auto& a                = *static_cast<Args*>(p);
+    int const argc         = a.argc;
+    char** const argv      = a.argv;
     std::string const mode = argc > 1 ? argv[1] : "";
     uint64_t const seed    = vh::env_seed();
     int rc                 = 2;
@@ -844,6 +862,21 @@ int main(int argc, char** argv)
         std::fprintf(stderr, "usage: intmath_driver replay8 <gen.ndjson> | sweep16 <tier> <part> <nparts> | wide <tier> <type|mixed>\n");
     }
     flush_out();
-    std::fprintf(stderr, "SUMMARY mode=%s events=%ld\n", mode.c_str(), g_events);
-    return rc;
+    std::fprintf(stderr, "SUMMARY mode=%s events=%ld traps=%ld\n", mode.c_str(), g_events, g_traps);
+    a.rc = rc;
+    return nullptr;
+}
+
+} // namespace
+
+int main(int argc, char** argv)
+{
+    Args a {argc, argv, 2};
+    pthread_attr_t at;
+    pthread_attr_init(&at);
+    pthread_attr_setstacksize(&at, 1 << 20);
+    pthread_t th;
+    if (pthread_create(&th, &at, work, &a) != 0) { return 2; }
+    pthread_join(th, nullptr);
+    return a.rc;
 }
